@@ -77,6 +77,46 @@ Proof.
   - rewrite hit_inner, IH, <- app_assoc; reflexivity.
 Qed.
 
+(* The same two loops as other sources spell them: the task's key named by a local (`nodeKey := tasks[i].nodeKey`: a
+   `let`, gone after zeta), the comparison written either way round (`key == k` / `k == key`). *)
+Lemma hit_inner_z : forall (k : N) keys ret,
+  for_range (R := list N) (fun key ret => if N.eqb key k then CNext (ret ++ [k]) else CNext ret) keys ret
+  = inl (ret ++ map (fun _ => k) (filter (fun key => N.eqb key k) keys)).
+Proof. exact hit_inner. Qed.
+
+Lemma hit_inner_sym_z : forall (k : N) keys ret,
+  for_range (R := list N) (fun key ret => if N.eqb k key then CNext (ret ++ [k]) else CNext ret) keys ret
+  = inl (ret ++ map (fun _ => k) (filter (fun key => N.eqb key k) keys)).
+Proof.
+  intros k keys; induction keys as [|a keys IH]; intros ret; simpl.
+  - rewrite app_nil_r; reflexivity.
+  - rewrite (N.eqb_sym k a). destruct (N.eqb a k); simpl.
+    + rewrite IH, <- app_assoc; reflexivity.
+    + apply IH.
+Qed.
+
+Lemma hit_outer_z : forall X (tasks : list (N * X)) keys ret,
+  for_range (R := list N) (fun (t : N * X) ret =>
+      match for_range (fun key ret => if N.eqb key (fst t) then CNext (ret ++ [fst t]) else CNext ret) keys ret with
+      | inr r => CRet r | inl ret => CNext ret end) tasks ret
+  = inl (ret ++ hit_spec tasks keys).
+Proof.
+  intros X tasks keys; unfold hit_spec; induction tasks as [|t tasks IH]; intros ret; simpl.
+  - rewrite app_nil_r; reflexivity.
+  - rewrite hit_inner_z, IH, <- app_assoc; reflexivity.
+Qed.
+
+Lemma hit_outer_sym_z : forall X (tasks : list (N * X)) keys ret,
+  for_range (R := list N) (fun (t : N * X) ret =>
+      match for_range (fun key ret => if N.eqb (fst t) key then CNext (ret ++ [fst t]) else CNext ret) keys ret with
+      | inr r => CRet r | inl ret => CNext ret end) tasks ret
+  = inl (ret ++ hit_spec tasks keys).
+Proof.
+  intros X tasks keys; unfold hit_spec; induction tasks as [|t tasks IH]; intros ret; simpl.
+  - rewrite app_nil_r; reflexivity.
+  - rewrite hit_inner_sym_z, IH, <- app_assoc; reflexivity.
+Qed.
+
 Lemma hit_one_in : forall (a k : N) keys,
   In k (map (fun _ => a) (filter (fun key => N.eqb key a) keys)) <-> k = a /\ memN a keys = true.
 Proof.
@@ -140,7 +180,8 @@ Qed.
 
 (* the generated getHitKey, as a specification; fails when Gen/IntrHit.v is the neutral file *)
 Ltac gen_hit_is_spec :=
-  unfold Gen.IntrHit.get_hit_key; rewrite hit_outer; reflexivity.
+  unfold Gen.IntrHit.get_hit_key;
+  first [ rewrite hit_outer | cbv zeta; first [ rewrite hit_outer_z | rewrite hit_outer_sym_z ] ]; reflexivity.
 
 (* the translated getHitKey reports exactly the nodes the model's [hits] reports ... *)
 Theorem gen_get_hit_key_same_nodes : forall V (tasks : list (N * V)) keys k,
